@@ -27,6 +27,13 @@ objs=[inner(jump(u),jump(v))*dS(degree=2) + u('+')*v('+')*dS(degree=1)]'''),
     corpus._c("c03_two_rules_first_onesided", '''
 m=mesh("tetrahedron"); V=space(m,"DP",1); u,v=TrialFunction(V),TestFunction(V)
 objs=[u('-')*v('-')*dS(degree=1) + inner(jump(u),jump(v))*dS(degree=3)]'''),
+    # derivative tables on tensor-product cells: constant along some facets, varying along the others
+    corpus._c("c03_gradients_quad", '''
+m=mesh("quadrilateral"); V=space(m,"DQ",1); u,v=TrialFunction(V),TestFunction(V); f=Coefficient(space(m,"DQ",2)); n=FacetNormal(m)
+objs=[inner(avg(grad(u)), n('+'))*jump(v)*dS + u('+').dx(0)*v('-')*dS + u('-').dx(1)*v('+')*dS, f('+').dx(0)*f('-').dx(1)*dS + inner(jump(grad(f)), n('+'))*dS]'''),
+    corpus._c("c03_gradients_hex", '''
+m=mesh("hexahedron"); V=space(m,"DQ",1); u,v=TrialFunction(V),TestFunction(V); f=Coefficient(V)
+objs=[u('+').dx(0)*v('-').dx(2)*dS + inner(jump(grad(u)),jump(grad(v)))*dS, f('-').dx(1)*f('+').dx(2)*dS]'''),
     corpus._c("c03_constant_only_quad", '''
 m=mesh("quadrilateral"); k=Constant(m)
 objs=[k*dS]'''),
